@@ -41,6 +41,9 @@ type Scenario struct {
 	// C17
 	FailModule int    // index of the file that fails (-1: none)
 	FailKind   string // "gen-reserved", "gen-goname" or "compile"
+	// DotDotName: the root Thrift file is called "...thrift" (its module name is ".."): whether
+	// such a run fails is not for the check to say, only that nothing leaves the output directory
+	DotDotName bool
 	Conflict   [2]int // C16: 1-based indices of two plugins that name one file (zero: none)
 	RootRel    string // explicit thrift root relative to the sandbox ("" with ExplicitRoot=false: automatic)
 	// simulator knobs
